@@ -1939,3 +1939,163 @@ class Workdir:
 
 def parse_shape(s):  # pragma: no cover - convenience for interactive use
     return ast.literal_eval(s)
+
+
+# ============================================================================= 5. values of one graph that share memory
+# (appended for C01's MEMORY-ALIASING family.) Two DISTINCT Python values of one graph that view the same memory: a
+# trainable tensor and its .detach() / .data, an nn.Parameter and its .data, same-geometry views (view_as, [:]), views of
+# another shape / stride / offset / dtype, an ndarray and torch.from_numpy of it, an ndarray and its views. Every member is
+# an ordinary, separately supported value; what is enumerated is every ORDERED PAIR of members of one base, so that
+# anything the serializer remembers about the first one (by memory address, by storage, by geometry) meets a second value
+# that agrees with the first in exactly that respect and differs in another (requires_grad, Parameter-vs-Tensor, shape,
+# stride, offset, dtype, ndarray-vs-tensor).
+# Bases are 3x3 so that the transposed view differs from the base in stride ONLY; rows01 / rows12 differ in offset ONLY.
+MEM_BASES = {
+    "tensor_requires_grad": ["self", "detach", "data", "view_as", "slice_all", "flat", "transposed", "rows01", "rows12", "bitcast_i32", "numpy"],
+    "parameter": ["self", "data", "detach", "view_as", "flat", "transposed"],
+    "parameter_frozen": ["self", "data", "view_as", "flat"],
+    "tensor_plain": ["self", "detach", "parameter_of", "requires_grad_alias", "flat", "numpy"],
+    "ndarray": ["self", "view", "slice_all", "transposed", "flat", "rows01", "rows12", "view_i64", "from_numpy", "from_numpy_requires_grad"],
+}
+MEM_PLACEMENTS = ["two_attributes", "list", "tuple", "dict", "attribute_and_nested_object"]
+
+
+def _mem_base(base, seed):
+    s = int(seed)
+    if base == "tensor_requires_grad":
+        return torch.from_numpy(make_array("f32", (3, 3), s + 31).copy()).requires_grad_(True)
+    if base == "parameter":
+        return torch.nn.Parameter(torch.from_numpy(make_array("f32", (3, 3), s + 32).copy()))
+    if base == "parameter_frozen":
+        return torch.nn.Parameter(torch.from_numpy(make_array("f32", (3, 3), s + 33).copy()), requires_grad=False)
+    if base == "tensor_plain":
+        return torch.from_numpy(make_array("f64", (3, 3), s + 34).copy())
+    if base == "ndarray":
+        return make_array("f64", (3, 3), s + 35).copy()
+    raise ValueError(base)
+
+
+def _mem_derive(w, member):
+    """A value that shares memory with the base value `w` (a new Python object on every call, except `self`)."""
+    if member == "self":
+        return w
+    if isinstance(w, np.ndarray):
+        if member == "view":
+            return w.view()
+        if member == "slice_all":
+            return w[:]
+        if member == "transposed":
+            return w.T
+        if member == "flat":
+            return w.reshape(-1)
+        if member == "rows01":
+            return w[0:2]
+        if member == "rows12":
+            return w[1:3]
+        if member == "view_i64":
+            return w.view(np.int64)
+        if member == "from_numpy":
+            return torch.from_numpy(w)
+        if member == "from_numpy_requires_grad":
+            return torch.from_numpy(w).requires_grad_(True)
+        raise ValueError(member)
+    if member == "detach":
+        return w.detach()
+    if member == "data":
+        return w.data
+    if member == "view_as":
+        return w.view_as(w)
+    if member == "slice_all":
+        return w[:]
+    if member == "flat":
+        return w.view(-1)
+    if member == "transposed":
+        return w.t()
+    if member == "rows01":
+        return w[0:2]
+    if member == "rows12":
+        return w[1:3]
+    if member == "bitcast_i32":
+        return w.detach().view(torch.int32)
+    if member == "numpy":
+        return w.detach().numpy()
+    if member == "parameter_of":
+        return torch.nn.Parameter(w)
+    if member == "requires_grad_alias":
+        return w.detach().requires_grad_(True)
+    raise ValueError(member)
+
+
+def mem_pairs():
+    """[(base, first, second)]: every ordered pair (with the diagonal: two separately derived values of one kind)."""
+    return [(b, x, y) for b, ms in MEM_BASES.items() for x in ms for y in ms]
+
+
+def mem_build(base, first, second, placement, seed):
+    """Root holding the two values `first`, `second` derived from ONE fresh base, `first` stored / inserted first."""
+    w = _mem_base(base, seed)
+    x, y = _mem_derive(w, first), _mem_derive(w, second)
+    r = Root()
+    if placement == "two_attributes":
+        r.a = x
+        r.b = y
+    elif placement == "list":
+        r.l = [x, y]
+    elif placement == "tuple":
+        r.tp = (x, y)
+    elif placement == "dict":
+        r.d = {"k0": x, "k1": y}
+    elif placement == "attribute_and_nested_object":
+        r.a = x
+        c = NodeA()
+        c.t = y
+        c.v = -1
+        r.c = c
+    else:
+        raise ValueError(placement)
+    return r
+
+
+def mem_pair_of(root, placement):
+    """The two values of a graph built by mem_build (or of what load returned for it); None if the shape is gone."""
+    try:
+        if placement == "two_attributes":
+            return root.a, root.b
+        if placement == "list":
+            return root.l[0], root.l[1]
+        if placement == "tuple":
+            return root.tp[0], root.tp[1]
+        if placement == "dict":
+            return root.d["k0"], root.d["k1"]
+        return root.a, root.c.t
+    except Exception:
+        return None
+
+
+def mem_shares(x, y):
+    """Do two tensors / arrays overlap in memory? (A count for the evidence; never a verdict.)"""
+    def as_np(v):
+        if isinstance(v, torch.Tensor):
+            return v.detach().cpu().numpy() if v.device.type == "cpu" else None
+        return v if isinstance(v, np.ndarray) else None
+
+    a, b = as_np(x), as_np(y)
+    if a is None or b is None:
+        return False
+    try:
+        return bool(np.shares_memory(a, b))
+    except Exception:
+        return bool(np.may_share_memory(a, b))
+
+
+def mem_show(base, first, second, placement):
+    w = {"tensor_requires_grad": "w = tensor(f32 3x3, requires_grad=True)", "parameter": "w = nn.Parameter(f32 3x3)", "parameter_frozen": "w = nn.Parameter(f32 3x3, requires_grad=False)",
+         "tensor_plain": "w = tensor(f64 3x3)", "ndarray": "w = ndarray(f64 3x3)"}[base]
+    expr = {"self": "w", "detach": "w.detach()", "data": "w.data", "view_as": "w.view_as(w)", "slice_all": "w[:]", "flat": "w.view(-1)" if base != "ndarray" else "w.reshape(-1)",
+            "transposed": "w.t()" if base != "ndarray" else "w.T", "rows01": "w[0:2]", "rows12": "w[1:3]", "bitcast_i32": "w.detach().view(torch.int32)", "numpy": "w.detach().numpy()",
+            "parameter_of": "nn.Parameter(w)", "requires_grad_alias": "w.detach().requires_grad_(True)", "view": "w.view()", "view_i64": "w.view(np.int64)",
+            "from_numpy": "torch.from_numpy(w)", "from_numpy_requires_grad": "torch.from_numpy(w).requires_grad_(True)"}
+    x, y = expr[first], expr[second]
+    g = {"two_attributes": f"Root(a={x}, b={y})", "list": f"Root(l=[{x}, {y}])", "tuple": f"Root(tp=({x}, {y}))", "dict": f"Root(d={{'k0': {x}, 'k1': {y}}})",
+         "attribute_and_nested_object": f"Root(a={x}, c=NodeA(t={y}, v=-1))"}[placement]
+    return f"{w}; {g}"
